@@ -2,7 +2,7 @@ SPECIFICATION TSpec
 CONSTANTS
   N = 3
   MaxChoices = {1}
-  IdSet = {"a", "b"}
+  IdSet = {"a", "b", "c"}
   CfgChoices = {}
   Dev <- CodeDev
   EnvOn <- EnvAllT
